@@ -30,7 +30,7 @@ def run(ctx, texts, tag="acc"):
     for i, t in enumerate(texts):
         a, m, tr = ast[i], model[i], tree[i]
         r = {"text": t, "tree": tr, "impl": a, "model": m, "agree": None}
-        if tr.startswith("PANIC") or tr.startswith("CRASH") or a.startswith("PANIC") or a.startswith("CRASH"):
+        if tr.startswith(("PANIC", "CRASH", "HANG")) or a.startswith(("PANIC", "CRASH", "HANG")):
             # the implementation panicked before/while producing a tree (parser / validation
             # findings of other properties): there is no I4 input for the accessor layer
             stats["impl-panicked (skipped)"] += 1
@@ -65,7 +65,7 @@ def run_chain(ctx, texts, tag="accch"):
     bad = []
     for i, t in enumerate(texts):
         a, m = ast[i], model[i]
-        if a.startswith(("PANIC", "CRASH")) or itree[i].startswith(("PANIC", "CRASH")):
+        if a.startswith(("PANIC", "CRASH", "HANG")) or itree[i].startswith(("PANIC", "CRASH", "HANG")):
             stats["impl-panicked (skipped)"] += 1
             continue
         f = PL.fields(itree[i])
